@@ -137,9 +137,16 @@ impl<'a, T> Foo for &'a T where T: Foo {}
 impl<const N> Len<N> for S<N> {} impl Len<2> for A {} impl<const N> Len<N> for [A; N] {}
 impl<'a> Out<'a> for R<'a, A> {} impl<'a, T> Out<'a> for &'a T {}
 impl Bar<A> for B {} impl<T> Bar<V<T>> for V<T> {} impl Bar<u32> for u32 {} impl Bar<f32> for f32 {}
+trait Tri {} impl Tri for [A; 3] {} impl Tri for [B; 4] {}
+trait Holds {} impl<const N> Holds for S<N> where [A; N]: Tri {} impl<T> Holds for V<T> where [T; 4]: Tri {}
 ";
 
-const RICH_GOALS: &[&str] = &[
+pub const RICH_GOALS: &[&str] = &[
+    "exists<const N> { S<N>: Holds }",
+    "exists<T> { V<T>: Holds }",
+    "exists<const N> { S<N>: Holds, S<N>: Foo }",
+    "exists<const N, T> { [T; N]: Tri }",
+    "forall<const N> { exists<T> { [T; N]: Len<N> } }",
     "exists<const N> { S<N>: Foo }",
     "exists<const N> { A: Len<N> }",
     "exists<const N, T> { T: Len<N> }",
@@ -166,6 +173,7 @@ const RICH_GOALS: &[&str] = &[
 struct RScope {
     tys: Vec<String>,
     lts: Vec<String>,
+    consts: Vec<String>,
     n: usize,
 }
 
@@ -176,10 +184,20 @@ fn rich_ty(t: &mut Tape, sc: &RScope, d: usize) -> String {
         }
         return ["A", "B", "u32"][t.choose(3)].into();
     }
-    match t.choose(3) {
+    match t.choose(if sc.consts.is_empty() { 3 } else { 5 }) {
+        3 => format!("S<{}>", rich_const(t, sc)),
+        4 => format!("[{}; {}]", rich_ty(t, sc, d - 1), rich_const(t, sc)),
         0 => format!("V<{}>", rich_ty(t, sc, d - 1)),
         1 => format!("R<{}, {}>", rich_lt(t, sc), rich_ty(t, sc, d - 1)),
         _ => format!("&{} {}", rich_lt(t, sc), rich_ty(t, sc, d - 1)),
+    }
+}
+
+fn rich_const(t: &mut Tape, sc: &RScope) -> String {
+    if !sc.consts.is_empty() && t.chance(75) {
+        sc.consts[t.choose(sc.consts.len())].clone()
+    } else {
+        ["2", "3", "4"][t.choose(3)].into()
     }
 }
 
@@ -217,6 +235,12 @@ fn rich_leaf(t: &mut Tape, sc: &RScope) -> String {
         10 | 11 if !sc.tys.is_empty() => format!("{} = {}", sc.tys[t.choose(sc.tys.len())], rich_ty(t, sc, 2)),
         12 if sc.lts.len() >= 2 => format!("{} = {}", rich_lt(t, sc), rich_lt(t, sc)),
         13 => format!("{} = {}", rich_ty(t, sc, 2), rich_ty(t, sc, 2)),
+        14 if !sc.consts.is_empty() => match t.choose(4) {
+            0 => format!("S<{}>: Holds", rich_const(t, sc)),
+            1 => format!("[A; {}]: Tri", rich_const(t, sc)),
+            2 => format!("{}: Len<{}>", rich_ty(t, sc, 1), rich_const(t, sc)),
+            _ => format!("S<{}> = S<{}>", rich_const(t, sc), rich_const(t, sc)),
+        },
         14 => "A: Foo".into(),
         15 => format!("&{} A: Foo", rich_lt(t, sc)),
         16 => {
@@ -241,6 +265,10 @@ fn rich_binder(t: &mut Tape, sc: &mut RScope) -> String {
             let n = format!("'l{}", sc.n);
             sc.lts.push(n.clone());
             names.push(n);
+        } else if t.chance(25) {
+            let n = format!("N{}", sc.n);
+            sc.consts.push(n.clone());
+            names.push(format!("const {}", n));
         } else {
             let n = format!("T{}", sc.n);
             sc.tys.push(n.clone());
@@ -252,7 +280,7 @@ fn rich_binder(t: &mut Tape, sc: &mut RScope) -> String {
 
 /// goals in which the solver itself has to open quantifiers: forall / exists blocks sit inside conjunctions, with
 /// unknowns of every universe flowing into the outer unknowns through equalities
-fn gen_rich_goal(t: &mut Tape) -> String {
+pub fn gen_rich_goal(t: &mut Tape) -> String {
     fn block(t: &mut Tape, sc: &RScope, depth: usize) -> String {
         let n = 1 + t.choose(3);
         let mut items = vec![];
